@@ -7,6 +7,7 @@
 //     -> M ok=<responses carrying their own request's method and number> bad=<responses that do not> short=<requests left
 //            unanswered although the server was not shut down> shutdown=<1 returned> threads_left=<framework threads alive after shutdown>
 //   R <workers> <asks>   requestLoad asked <asks> times in a row under load -> R got=<answered> lost=<not answered within 3 s>
+//   R2 <workers> <rounds>   two requestLoad in flight at a time -> R2 both=<rounds in which both were answered> lost=<others>
 //   B <workers>   serve() on its own thread, this thread polls isBound()/getPort(), one request, shutdown() -> B bound=1 answered=1 returned=1
 //   I <workers>   serveThreaded(); shutdown(); at once -> I shutdown=1 threads_left=<alive 3 s after shutdown, before the destructor> dtor=1
 // Built with -fsanitize=thread: a data race inside the framework ends the case as CRASH.
@@ -153,6 +154,39 @@ static std::string load_case(int workers, int asks)
     return os.str();
 }
 
+// R2 <workers> <rounds>: two requestLoad in flight at a time (asked one right after the other): both must be answered.
+static std::string load2_case(int workers, int rounds)
+{
+    auto router = std::make_shared<Rest::Router>();
+    Rest::Routes::Get(*router, "/echo/:id", Rest::Routes::bind(&echo));
+    Http::Endpoint ep(Address("127.0.0.1", Port(0)));
+    ep.init(Http::Endpoint::options().threads(workers).flags(Flags<Tcp::Options>(Tcp::Options::ReuseAddr)));
+    ep.setHandler(Rest::Router::handler(router));
+    ep.serveThreaded();
+    Tcp::Listener::Load first;
+    first.workers.assign(static_cast<size_t>(workers), 0.0);
+    first.raw.assign(static_cast<size_t>(workers), rusage {});
+    first.tick = std::chrono::system_clock::now();
+    int both = 0, lost = 0;
+    for (int r = 0; r < rounds; ++r)
+    {
+        auto a = std::make_shared<std::atomic<int>>(0);
+        auto b = std::make_shared<std::atomic<int>>(0);
+        ep.requestLoad(first).then([a](const Tcp::Listener::Load&) { a->store(1); }, [a](std::exception_ptr) { a->store(2); });
+        ep.requestLoad(first).then([b](const Tcp::Listener::Load&) { b->store(1); }, [b](std::exception_ptr) { b->store(2); });
+        for (int w = 0; w < 5000 && (a->load() == 0 || b->load() == 0); ++w)
+            std::this_thread::sleep_for(std::chrono::microseconds(200));
+        if (a->load() == 1 && b->load() == 1)
+            ++both;
+        else
+            ++lost;
+    }
+    ep.shutdown();
+    std::ostringstream os;
+    os << "R2 both=" << both << " lost=" << lost;
+    return os.str();
+}
+
 // B <workers>: the blocking serve() runs on a thread of its own while this thread waits for the endpoint to be bound
 // (isBound(), then getPort() - the pattern the comment on getPort() describes), sends one request and shuts down.
 static std::string blocking_case(int workers)
@@ -188,6 +222,8 @@ static std::string handle(const std::string& line)
     auto t = pv::split(line);
     if (t.size() == 3 && t[0] == "R")
         return load_case(atoi(t[1].c_str()), atoi(t[2].c_str()));
+    if (t.size() == 3 && t[0] == "R2")
+        return load2_case(atoi(t[1].c_str()), atoi(t[2].c_str()));
     if (t.size() == 2 && t[0] == "B")
         return blocking_case(atoi(t[1].c_str()));
     if (t.size() == 2 && t[0] == "I")
